@@ -133,18 +133,7 @@ def run(ctx, rep):
     # ---- R8: a critical section that changed what conditional waiters of a note mutex wait for (the child list, the notified flag) ends with a
     # waking unlock
     rep.rule('C09.R8', 'nsync_mu_unlock_without_wakeup on a note mutex only after a critical section that changed neither the child list nor the flag')
-    n8 = 0
-    for r in eng.records:
-        if r.kind == 'release' and isinstance(r.mutex, Ptr) and r.mutex.path and r.mutex.path[-1][1] == MU:
-            n8 += 1
-            if getattr(r, 'callee', '') == 'nsync_mu_unlock_without_wakeup':
-                ok = not getattr(r, 'dirty', False)
-                rep.instance('C09.R8', 'unlock_without_wakeup of %s at %s, section changed list/flag: %s [%s]' % (r.mutex.base, r.where(), not ok, r.entry)); rep.oblig('C09.R8', ok)
-                if not ok:
-                    rep.violate(Violation('C09.R8', r.where(), 'a critical section of a note mutex that changed the child list or the notified flag ends with nsync_mu_unlock_without_wakeup: a thread waiting on that mutex for exactly this change (the freer/notifier waiting for an empty child list, a second notifier waiting for the flag) is not woken - deadlock [entry %s]' % r.entry,
-                                          site='%s/unlock-without-wakeup-after-change' % r.inst.fn.name))
-    if n8:
-        rep.instance('C09.R8', '%d releases of note mutexes examined' % n8); rep.oblig('C09.R8', True)
+    check_waking_unlock(eng, rep, 'C09.R8')
     rep.floor('C09.R1', 6)
     rep.floor('C09.R2', 2)
     rep.floor('C09.R3', 1)
@@ -157,3 +146,22 @@ def run(ctx, rep):
 
 def LockHeld(r):
     return {k[1]: v for k, v in r.ghost.items() if isinstance(k, tuple) and k[0] == 'held'}
+
+
+def check_waking_unlock(eng, rep, rid):
+    """a critical section that changed what conditional waiters of a note mutex wait for (the child list, the notified flag) ends with a waking
+    unlock: nsync_mu_unlock_without_wakeup skips the evaluation of the waiters' conditions"""
+    n8 = 0
+    for r in eng.records:
+        if r.kind == 'release' and isinstance(r.mutex, Ptr) and r.mutex.path and r.mutex.path[-1][1] == MU:
+            n8 += 1
+            if getattr(r, 'callee', '') == 'nsync_mu_unlock_without_wakeup':
+                ok = not getattr(r, 'dirty', False)
+                rep.instance(rid, 'unlock_without_wakeup of %s at %s, section changed list/flag: %s [%s]' % (r.mutex.base, r.where(), not ok, r.entry)); rep.oblig(rid, ok)
+                if not ok:
+                    rep.violate(Violation(rid, r.where(), 'a critical section of a note mutex that changed the child list or the notified flag ends with nsync_mu_unlock_without_wakeup: a thread waiting on that mutex for exactly this change (the freer/notifier waiting for an empty child list, a second notifier waiting for the flag) is not woken - deadlock [entry %s]' % r.entry,
+                                          site='%s/unlock-without-wakeup-after-change' % r.inst.fn.name))
+    if n8:
+        rep.instance(rid, '%d releases of note mutexes examined' % n8); rep.oblig(rid, True)
+    else:
+        raise AnalysisBroken('%s: no release of a note mutex seen' % rid)
